@@ -257,6 +257,7 @@ func rangeMain(args []string) {
 	stt := newStats()
 	w := newEvWriter(*out, 20000)
 	emit := func(c gCase) {
+		w.Inflight(c)
 		ev := runRangeCase(c)
 		stt.Calls += len(c.Orders) * c.Pages
 		stt.class("kind:" + ev.KindX)
